@@ -140,6 +140,36 @@ pub fn run_mode(input: &[u8], mode: &Mode, from: Option<Fmt>, to: Fmt) -> Outcom
     }
 }
 
+/// Inputs of each format that a Translator is "warmed up" with (all under detection) before the call
+/// under observation: whatever it remembers of them must not change what it does next.
+pub const WARM_UPS: [(&str, &[u8]); 6] = [
+    ("yaml", b"warm: up\nlist:\n  - 1\n  - two\n"),
+    ("toml", b"[warm]\nup = 1\n"),
+    ("json", b"{\"warm\": [\"up\", 1]}\n"),
+    ("msgpack", b"\x82\xa4warm\xa2up\xa1n\x01"),
+    ("yaml_flow", b"[warm, up]\n"),
+    ("undetectable", b"\x01\x02 no known format {{{\n"),
+];
+
+/// Translates `input` on a Translator that has already translated the `warm` inputs (without a source
+/// format). Returns the verdict of that last call and the bytes IT wrote.
+pub fn run_after(warm: &[&[u8]], input: &[u8], mode: &Mode, from: Option<Fmt>, to: Fmt) -> Outcome {
+    let writer = MonWriter::new();
+    let wlog = writer.log_handle();
+    let mut tr = xt::Translator::new(writer, to.xt());
+    for w in warm {
+        let _ = guarded(|| tr.translate_slice(w, None));
+    }
+    let before = wlog.borrow().bytes.len();
+    let verdict = guarded(|| match mode {
+        Mode::Slice => tr.translate_slice(input, from.map(Fmt::xt)),
+        Mode::Reader(s) => tr.translate_reader(SchedReader::new(input, s.clone()), from.map(Fmt::xt)),
+    });
+    drop(tr);
+    let out = wlog.borrow().bytes[before..].to_vec();
+    Outcome { verdict, out }
+}
+
 /// One translate call in a history on a single Translator.
 #[derive(Clone, Debug)]
 pub struct Call {
